@@ -153,14 +153,18 @@ Proof. exact branch_write_spec. Qed.
 
 (* ------------------------------------------------------------------ (5) references to entries *)
 
-(* Where a unit offset comes from: no table (CFI) and a not-yet-assigned entry are the two specific errors. *)
+(* Where a unit offset comes from: no table (CFI) and a not-yet-assigned entry are the two specific errors.
+   (wrglue follow-up) An id beyond the entries vector — reserved and never added — is "not assigned" too: since /repo
+   fix c42c00d UnitOffsets::debug_info_offset answers None for it (`self.entries.get(index)?`), so it is the
+   forward-reference error, not a panic; the model had kept the index panic and is corrected. For ids inside the
+   vector the statement is unchanged. *)
 Theorem entry_offset_exact : forall dbg uo en,
   entry_offset dbg uo en =
   match uo with
   | None => Err WUnsupportedCfiExpressionReference
   | Some u =>
       match nth_N (uo_entries u) en with
-      | None => Panic
+      | None => Err WUnsupportedExpressionForwardReference
       | Some off =>
           if off =? 0 then Err WUnsupportedExpressionForwardReference
           else chk_sub 64 dbg off (uo_unit u)
@@ -274,6 +278,12 @@ Example forward_ref : write_expr true enc4 (Some tbl) true 0 [WoDerefType false 
 Proof. vm_compute. reflexivity. Qed.
 Example forward_ref_size : size_expr true enc4 (Some tbl) [WoDerefType false 4 3] = Err WUnsupportedExpressionForwardReference.
 Proof. vm_compute. reflexivity. Qed.
+Example beyond_vector_ref :
+  write_expr true enc4 (Some tbl) true 0 [WoDerefType false 4 9] = Err WUnsupportedExpressionForwardReference /\
+  size_expr false enc4 (Some tbl) [WoDerefType false 4 9] = Err WUnsupportedExpressionForwardReference /\
+  write_expr false enc4 (Some tbl) true 0 [WoCall 9] = Err WUnsupportedExpressionForwardReference /\
+  apply_fixups false [tbl] 0 [x00; x00; x00; x00] [{| fx_offset := 0; fx_size := 4; fx_unit := 0; fx_entry := 9 |}] = Err WInvalidReference.
+Proof. vm_compute. repeat split; reflexivity. Qed.
 Example cfi_ref : write_expr true enc4 None false 0 [WoCall 1] = Err WUnsupportedCfiExpressionReference.
 Proof. vm_compute. reflexivity. Qed.
 Example sym_ref : write_expr true enc4 (Some tbl) true 0 [WoVarValue (RSym 1)] = Err WInvalidReference.
@@ -415,3 +425,75 @@ Proof.
   split; [vm_compute; reflexivity|]. split; [vm_compute; reflexivity|].
   repeat constructor; try (vm_compute; reflexivity); try (intros H; now elim H).
 Qed.
+
+(* ================================================================ GLUE with C11 / C16 (Model/UnitGlueWr.v, stream c11.glue)
+   Where the fix-ups of an expression end up once the expression is embedded by the unit writer (DW_FORM_exprloc
+   attribute) or by the location-list writer (loc.rs write_expression).  Compositions of the theorems above with C11 /
+   C16 (Proofs/WriterGlueProofs.v); the unit-level statements are in Properties/C11.v (exprloc_attr_roundtrip,
+   glue_offsets_exact), the list-level ones in Properties/C16.v. *)
+Require GV.Spec.UnitWrSpec GV.Model.UnitWr GV.Model.UnitGlueWr GV.Model.ListsWr GV.Spec.ListWrSpec GV.Proofs.WriterGlueProofs.
+
+(* ref_fixup along a laid-out expression: the k-th operation, if it is call_ref / variable_value / implicit_pointer
+   naming entry (u, en), starts at offsets[k] and ITS fix-up — unit u, entry en, the reference size of that operation —
+   points at offsets[k] + 1, the first byte of the operand.  With `laid` started at (attribute position + prefix
+   length) resp. (list offset + entry offset + entry head + prefix length) this is the position inside the section. *)
+Theorem ref_fixups_at_operands : forall dbg e uo offsets ex pos offs bs fx,
+  laid (write_op dbg e uo true offsets) pos ex offs bs fx ->
+  forall k o u en size, nth_error ex k = Some o -> ref_operand e o = Some (REntry u en, size) ->
+  exists p, nth_error offs k = Some p /\
+            In {| fx_offset := p + 1; fx_size := size; fx_unit := u; fx_entry := en |} fx.
+Proof. exact WriterGlueProofs.laid_ref_fixups. Qed.
+
+(* loc.rs write_expression inside a list entry that starts at section position `pos` with the bytes `h` (kind byte,
+   addresses / offsets) before the expression: it appends exactly what C16's raw model appends for the byte string
+   `d` the expression is written as (u16 / ULEB length prefix p, then d), and the operations — hence the fix-ups, which
+   go to the list handed in: debug_loc_fixups (v <= 4) or debug_loclists_fixups (v = 5) — are laid out from
+   pos + |h| + |p| *)
+Theorem loc_expression_in_entry : forall dbg oe uo pos h ex bs fx,
+  UnitGlueWr.gentry_tail dbg oe uo pos h ex = Ok (bs, fx) -> pos + blen bs < 2 ^ 64 ->
+  exists p d offsets,
+    bs = h ++ p ++ d /\
+    ListsWr.opt_expression true (e_be oe) (e_version oe) d = Ok (p ++ d) /\
+    write_expr dbg oe (Some uo) true (pos + blen h + blen p) ex = Ok (d, fx) /\
+    laid (write_op dbg oe (Some uo) true offsets) (pos + blen h + blen p) ex offsets d fx.
+Proof. exact WriterGlueProofs.gentry_tail_raw. Qed.
+
+(* a whole DWARF 5 location list written at `pos`: its bytes are C16's write_list_v5 on the raw view of the list
+   (each expression replaced by the bytes it is written as), and they split into consecutive entries, each with its
+   expression laid out (entry_laid) and contributing exactly its fix-ups, in order *)
+Theorem loclist_v5_fixups : forall dbg oe uo asz l pos bs fx,
+  UnitGlueWr.gwrite_list_v5 dbg oe uo asz pos l = Ok (bs, fx) -> pos + blen bs < 2 ^ 64 ->
+  exists raws chunks,
+    Forall2 (WriterGlueProofs.raw_rel dbg oe uo) l raws /\
+    ListsWr.write_list_v5 true (e_be oe) (e_version oe) asz raws = Ok bs /\
+    bs = concat chunks ++ [n2b 0] /\ WriterGlueProofs.list_laid dbg oe uo pos l chunks fx.
+Proof. exact WriterGlueProofs.gwrite_list_v5_raw. Qed.
+
+Example loc_expression_in_entry_ex :
+  UnitGlueWr.gentry_tail true enc4 tbl 100 [x01; x02] [WoCallRef (REntry 0 1); WoUConst 5] =
+    Ok ([x01; x02; x06; x00; x9a; x00; x00; x00; x00; x35], [{| fx_offset := 105; fx_size := 4; fx_unit := 0; fx_entry := 1 |}]) /\
+  UnitGlueWr.gwrite_list_v5 true enc5 tbl 4 20 [UnitGlueWr.GLDefault [WoVarValue (REntry 1 2)]] =
+    Ok ([x05; x09; xfd; x00; x00; x00; x00; x00; x00; x00; x00; x00], [{| fx_offset := 23; fx_size := 8; fx_unit := 1; fx_entry := 2 |}]).
+Proof. vm_compute. split; reflexivity. Qed.
+
+Check ref_fixups_at_operands : forall dbg e uo offsets ex pos offs bs fx,
+  laid (write_op dbg e uo true offsets) pos ex offs bs fx ->
+  forall k o u en size, nth_error ex k = Some o -> ref_operand e o = Some (REntry u en, size) ->
+  exists p, nth_error offs k = Some p /\ In {| fx_offset := p + 1; fx_size := size; fx_unit := u; fx_entry := en |} fx.
+
+(* the DWARF 2-4 list (LocationListTable::write_loc, one list, have_base_address threaded): same statement as
+   loclist_v5_fixups with C16's write_list_v4; `tail` is the (0,0) terminator *)
+Theorem loclist_v4_fixups : forall dbg oe uo asz mk l hb pos bs fx,
+  UnitGlueWr.gwrite_list_v4 dbg oe uo asz mk hb pos l = Ok (bs, fx) -> pos + blen bs < 2 ^ 64 ->
+  exists raws chunks tail,
+    Forall2 (WriterGlueProofs.raw_rel dbg oe uo) l raws /\
+    ListsWr.write_list_v4 true (e_be oe) (e_version oe) asz mk hb raws = Ok bs /\
+    bs = concat chunks ++ tail /\ WriterGlueProofs.list_laid dbg oe uo pos l chunks fx.
+Proof. exact WriterGlueProofs.gwrite_list_v4_raw. Qed.
+
+Example loclist_v4_fixups_ex :
+  UnitGlueWr.gwrite_list_v4 true enc4 tbl 8 (2 ^ 64 - 1) false 64 [UnitGlueWr.GLStartEnd (ListWrSpec.AConst 1) (ListWrSpec.AConst 2) [WoCallRef (REntry 0 1)]] =
+    Ok ([x01; x00; x00; x00; x00; x00; x00; x00; x02; x00; x00; x00; x00; x00; x00; x00; x05; x00; x9a; x00; x00; x00; x00;
+         x00; x00; x00; x00; x00; x00; x00; x00; x00; x00; x00; x00; x00; x00; x00; x00],
+        [{| fx_offset := 83; fx_size := 4; fx_unit := 0; fx_entry := 1 |}]).
+Proof. vm_compute. reflexivity. Qed.
